@@ -32,6 +32,8 @@ EXEMPT = {
     R1 + 'input_buffer::get_ordered_token': 'called only by the serial input stage; the token protocol admits one input-stage '
                                             'invocation of a serial first filter at a time',
     R1 + 'input_buffer::grow': 'requires the lock at its call sites (checked there)',
+    R1 + 'input_buffer::finalize_parked_items': 'teardown: called only from pipeline::~pipeline(), when no task of the pipeline can '
+                                                'run any more (who-may-call checked in D1)',
 }
 
 
@@ -46,6 +48,11 @@ def run(facts, rep):
 
 def d1_lock(facts, rep):
     n = 0
+    # the teardown exemption holds only while the function is reachable from the pipeline destructor alone
+    for g in facts.by_p.get(R1 + 'input_buffer::finalize_parked_items', []):
+        callers = sorted(set(c[0].p for c in facts.callers(g.u)))
+        rep.ob('D1', 'K11', g, 'finalize_parked_items (walks the ring without the lock) is called only from the pipeline destructor',
+               callers == [R1 + 'pipeline::(dtor)'], 'called from %s: the unlocked walk races with try_put_token / the next-token hand-off' % callers)
     for fn in facts.find(r'^tbb::detail::r1::input_buffer::'):
         acc = [x for x in member_accesses(fn, BUF_FIELDS) if x[2].get('cls', '').endswith('input_buffer')]
         if not acc:
